@@ -31,6 +31,9 @@ pub const BAD: &[&str] = &[
     "The quik brown fox jumps.",
     "We discused the the plan.",
     "My freind has a unique idea and a honest face.",
+    // words whose spelling depends on the dialect
+    "The colour of the centre is grey.",
+    "We organize the color palette in the center.",
     // lints whose fix inserts text after the flagged text
     "We bought apples, bananas and cherries today.",
     "This is wrong ,right after the comma.",
